@@ -76,7 +76,7 @@ LOCK_RULE = ("proof obligations are `decide`d over tables regenerated from the c
 
 FS_RUN = dict(
     model="filesink", sub="filesink", driver="filesink",
-    quick=["-n", "300", "-conc", "6", "-kill", "6"],
+    quick=["-n", "300", "-conc", "14", "-kill", "6"],
     thorough=["-n", "6000", "-conc", "60", "-kill", "80"],
     search=["-n", "2000", "-conc", "20", "-kill", "20"],
 )
@@ -180,7 +180,8 @@ PROPS = {
         module="Evl.Props.C07",
         theorems=["Evl.C07.deny_node_refuses", "Evl.C07.deny_node_sticky", "Evl.C07.deny_pipe_refuses", "Evl.C07.deny_pipe_sticky",
                   "Evl.C07.allow_node_overwrite", "Evl.C07.allow_pipe_overwrite", "Evl.C07.invalid_policy_rejected",
-                  "Evl.C07.node_rebinding", "Evl.C07.one_version_on_source", "Evl.C07.one_version"],
+                  "Evl.C07.node_rebinding", "Evl.C07.one_version_on_source", "Evl.C07.one_version",
+                  "Evl.C07.invalid_option_anywhere", "Evl.C07.valid_options"],
         runs=[REGISTRY_RUN, race_run("window", 30, 400, 120)], oracle_prefixes=["C07", "C01/C07"], models=["M1 Registry"],
         trusted_base=TB_COMMON, assumptions=M1_ASSUME, rule=M1_RULE,
     ),
@@ -203,7 +204,7 @@ PROPS = {
     ),
     "C15": dict(
         module="Evl.Props.C15",
-        theorems=["Evl.C15.trigger_iff", "Evl.C15.trigger_on_source", "Evl.C15.never_without_limits", "Evl.C15.prune_keeps_foreign",
+        theorems=["Evl.C15.trigger_iff", "Evl.C15.no_age_rotation_without_positive_duration", "Evl.C15.trigger_on_source", "Evl.C15.never_without_limits", "Evl.C15.prune_keeps_foreign",
                   "Evl.C15.created_mode", "Evl.C15.open_name"],
         runs=[FS_RUN], oracle_prefixes=["C15"], models=["M5 FileSink", "Generated.Decisions"],
         trusted_base=TB_COMMON + ["gofacts translator: the rotation condition is regenerated from file_sink.go on every run"],
